@@ -190,12 +190,26 @@ def gen_type(rnd, depth):
     k = rnd.randrange(0, 7 if depth > 0 else 1)
     if k == 0:
         return rnd.choice(base)
+    from xdsl.dialects.builtin import DYNAMIC_INDEX, AffineMapAttr, ArrayAttr, BoolAttr, IntegerAttr, NoneAttr, StridedLayoutAttr, StringAttr
+    from xdsl.ir.affine import AffineMap
+
+    dim = lambda lo: rnd.choice([lo, 1, 3, DYNAMIC_INDEX])
     if k == 1:
-        return TensorType(rnd.choice([i32, f32, f64, i1, IndexType()]), [rnd.randrange(0, 4) for _ in range(rnd.randrange(0, 3))])
+        shape = [dim(0) for _ in range(rnd.randrange(0, 3))]
+        enc = rnd.choice([None, None, StringAttr("enc"), IntegerAttr(0, i64)])
+        return TensorType(rnd.choice([i32, f32, f64, i1, IndexType()]), shape) if enc is None else TensorType(rnd.choice([i32, f32]), shape, enc)
     if k == 2:
-        return MemRefType(rnd.choice([i32, f32, f64]), [rnd.randrange(1, 4) for _ in range(rnd.randrange(0, 3))])
+        shape = [dim(0) for _ in range(rnd.randrange(0, 3))]
+        # layouts: none, strided (static strides including ZERO and negative ones, dynamic strides, static/zero/dynamic offset), affine map
+        layout = rnd.choice([NoneAttr(), NoneAttr(),
+                             StridedLayoutAttr([rnd.choice([0, 1, 7, -2, None]) for _ in shape], rnd.choice([0, 0, 3, -1, None])),
+                             AffineMapAttr(AffineMap.identity(len(shape)))])
+        space = rnd.choice([NoneAttr(), NoneAttr(), IntegerAttr(0, i64), IntegerAttr(1, i32), StringAttr("shared")])
+        return MemRefType(rnd.choice([i32, f32, f64]), shape, layout, space)
     if k == 3:
-        return VectorType(rnd.choice([i32, f32, i1]), [rnd.randrange(1, 4) for _ in range(rnd.randrange(1, 3))])
+        shape = [rnd.randrange(1, 4) for _ in range(rnd.randrange(1, 3))]
+        scal = None if rnd.random() < 0.6 else ArrayAttr([BoolAttr(rnd.random() < 0.5, i1) for _ in shape])
+        return VectorType(rnd.choice([i32, f32, i1]), shape, scal)
     if k == 4:
         return ComplexType(rnd.choice([f32, f64, i32]))
     if k == 5:
@@ -255,7 +269,11 @@ def gen_attr(rnd, depth):
     if k == 7:
         from xdsl.dialects.builtin import NoneAttr
 
+        from xdsl.dialects.builtin import BoolAttr, StridedLayoutAttr
+
         return rnd.choice([UnitAttr(), NoneAttr(), UnknownLoc(), FileLineColLoc(StringAttr("f.mlir"), IntAttr(3), IntAttr(7)), SymbolRefAttr("a"), SymbolRefAttr("a b", ["c", "d-e"]),
+                           FileLineColLoc(StringAttr(""), IntAttr(0), IntAttr(0)), BoolAttr(False, i1), BoolAttr(True, i1),
+                           StridedLayoutAttr([rnd.choice([0, 1, -3, None]) for _ in range(rnd.randrange(0, 3))], rnd.choice([0, 5, -1, None])),
                            AffineMapAttr(AffineMap.identity(2)), AffineMapAttr(AffineMap.from_callable(lambda i, j: (i + 2 * j, j % 3, i // 2)))])
     if k in (8, 9):
         return ArrayAttr([gen_attr(rnd, depth - 1) for _ in range(rnd.randrange(0, 4))])
